@@ -46,6 +46,8 @@ func main() {
 	fs.BoolVar(&verbose, "v", false, "verbose")
 	fs.BoolVar(&noReplay, "no-replay", false, "skip native replay (development only; never exits 1)")
 	fs.IntVar(&workers, "workers", 16, "parallel workers")
+	var replayPath string
+	fs.StringVar(&replayPath, "replay", "", "replay the counterexample file written by an earlier run against the natively compiled code (no symbolic run)")
 	if len(os.Args) < 2 {
 		fmt.Fprintln(os.Stderr, "usage: vcheck <property-id> [flags]")
 		os.Exit(2)
@@ -59,6 +61,9 @@ func main() {
 	os.Unsetenv("GOSUMDB")
 	if t := os.Getenv("VERIF_TIER"); t != "" && !flagSet(fs, "tier") {
 		tier = t
+	}
+	if replayPath != "" {
+		os.Exit(replayOnly(id, repo, verifDir, replayPath, verbose))
 	}
 	seed := 0
 	if s := os.Getenv("VERIF_SEED"); s != "" {
@@ -293,6 +298,43 @@ func run(id, tier, only, repo, verifDir, solver string, verbose, noReplay bool, 
 	writeEvidence(verifDir, id, tier, seed, results, replayNotes, violations, knownHits, validated, time.Since(t0), loaded.LoadTime, solver, tc)
 	fmt.Printf("[%s] done: exit=%d violations=%d known=%d inconclusive=%d wall=%.1fs\n", id, exit, violations, knownHits, inconclusive, time.Since(t0).Seconds())
 	return exit
+}
+
+// replayOnly re-runs one recorded counterexample natively against the current
+// tree: exit 1 (and a VIOLATION line) if it fails there as recorded, 0 if the
+// current tree does not show it, 2 if the file cannot be used.
+func replayOnly(id, repo, verifDir, path string, verbose bool) int {
+	data, err := os.ReadFile(path)
+	if err != nil {
+		fmt.Fprintf(os.Stderr, "cannot read %s: %v\n", path, err)
+		return 2
+	}
+	f := &gosym.Failure{}
+	if err := json.Unmarshal(data, f); err != nil || f.Harness == "" {
+		fmt.Fprintf(os.Stderr, "%s is not a counterexample file: %v\n", path, err)
+		return 2
+	}
+	hfs, err := gosym.HarnessFiles(verifDir, repo, id)
+	if err != nil || len(hfs) == 0 {
+		fmt.Fprintf(os.Stderr, "no harness files for %s: %v\n", id, err)
+		return 2
+	}
+	outcome := nativeReplay(verifDir, repo, id, hfs, f, path, verbose)
+	for try := 0; try < 2 && !replayMatches(f, outcome) && len(f.Schedule) > 0; try++ {
+		outcome = nativeReplay(verifDir, repo, id, hfs, f, path, verbose)
+	}
+	reproduced := replayMatches(f, outcome)
+	fmt.Printf("[%s] replay: %s kind=%s label=%q native=%q reproduced=%v replay=%s\n", id, f.Harness, f.Kind, f.Label, outcome, reproduced, path)
+	if !reproduced {
+		return 0
+	}
+	if kf := matchKnown(loadKnown(verifDir), id, f); kf != nil {
+		what := strings.TrimSpace(strings.TrimPrefix(kf.Text, "finding:"))
+		fmt.Printf("KNOWN-FINDING: %s\n", what)
+		return 0
+	}
+	fmt.Printf("VIOLATION property=%s replay=%s\n", id, path)
+	return 1
 }
 
 func matchKnown(known []knownFinding, id string, f *gosym.Failure) *knownFinding {
